@@ -874,7 +874,15 @@ def r_cumul(E):
     from ..astutil import fully_expanded
 
     def rounding_of(expr, f):
-        x = fully_expanded(expr, f)
+        # (a local bound once per arm of the function — the computation inlined in both arms of a memoising wrapper — is
+        # read once per binding; the verdicts must agree, a single rounding down decides)
+        from ..astutil import expansions as _exps
+        vs = {_rounding_of_one(x_) for x_ in _exps(expr, f)}
+        if "down" in vs:
+            return "down"
+        return "up" if vs == {"up"} else None
+
+    def _rounding_of_one(x):
         # round(v, n) with n >= 1 keeps the fraction (it absorbs conversion noise): it is not a rounding to whole hours
         class _Drop(ast.NodeTransformer):
             def visit_Call(self, node):
@@ -893,16 +901,29 @@ def r_cumul(E):
             return "down"
         return None
     verdict = None
-    for c in _calls(fn):
+    # (the property and the same-class helpers it is written with: a memoising wrapper around the computation, …)
+    from ..astutil import nodes_through_helpers as _nth_cu
+
+    def _holder(n_, default):
+        x_ = n_
+        while x_ is not None and not isinstance(x_, ast.FunctionDef):
+            x_ = getattr(x_, "_parent", None)
+        return x_ if x_ is not None else default
+    top_fn = fn
+    for c in [n_ for n_ in _nth_cu(top_fn, pm.helper_finder("Storage"), depth=2) if isinstance(n_, ast.Call)]:
+        fn = _holder(c, top_fn)
         if isinstance(c.func, ast.Attribute) and c.func.attr == "shift":
             amount = next((k.value for k in c.keywords if k.arg == "periods"), c.args[0] if c.args else None)
-            if amount is not None and "data_storage_duration" in norm(fully_expanded(amount, fn)):
-                verdict = rounding_of(amount, fn)
+            from ..astutil import expansions as _exps2
+            if amount is not None and any("data_storage_duration" in norm(x_) for x_ in _exps2(amount, fn)):
+                v_ = rounding_of(amount, fn)
+                verdict = "down" if "down" in (v_, verdict) else v_
         if isinstance(c.func, ast.Attribute) and c.func.attr == "return_shifted_hourly_quantities" and c.args \
                 and "data_storage_duration" in norm(fully_expanded(c.args[0], fn)):
             relh, h = pm.find_function(EO, "ExplainableHourlyQuantities.return_shifted_hourly_quantities")
             sh = next((x for x in _calls(h) if isinstance(x.func, ast.Attribute) and x.func.attr == "shift"), None)
             verdict = rounding_of(sh.args[0], h) if sh is not None and sh.args else None
+    fn = top_fn
     if verdict == "down":
         res.findings.append(Finding(
             "R-CUMUL", "retention rounded down",
